@@ -123,6 +123,19 @@ def stepKern (st : St) (cmd : List String) (got : String) : Option (St × Verdic
     match (got.splitOn " ").map String.toNat? with
     | [some f, some p] => some (st, if f == p then none else some "assembly popcount == portable popcount")
     | _ => some (st, if got.startsWith "skip" then none else some "<fast> <portable>")
+  | ["dense", x] =>
+    match st.bm[x]? with
+    | none => some (skipV st got)
+    | some s =>
+      let n := match BSet.maximum s with | some m => (m + 1 + 63) / 64 | none => 0
+      some (st, expect (toString n ++ " " ++ toString n ++ " " ++ digest s ++ " true") got)
+  | ["fromdense", y, _, ws] | ["frombitset", y, ws] =>
+    match parseWords ws with
+    | some words =>
+      let s := boundsOfBits 0 false (words.flatMap wordBits)
+      some ({ st with bm := st.bm.insert y s }, expect (digest s ++ " true") got)
+    | none => some (skipV st got)
+  | ["densechk"] => some (st, expect "ok" got)
   | ["mkrepr", x, reprS] =>
     match parseRep reprS with
     | some r => let s := r.toBSet
